@@ -86,6 +86,21 @@ def s_literals(g, tier):
         if G.is_op_shaped(v): continue
         for d in (datas if tier != "quick" else datas[:3]):
             out.append(("lit", v, app(v, d)))
+    # literal operands are inert: nothing inside an array/object literal given as an operand is evaluated
+    # (the single exception: element expressions of a literal array that is the collection of all/some/none)
+    shaped = [{"var": "a"}, {"+": [1, 2]}, {"/": [1]}, {"log": "LEAK"}, {"unknown": 1}, {"var": "zz"}, {"if": [True, "hijack"]}]
+    d0 = {"a": 7, "x": [1, 2]}
+    for sv in shaped:
+        lit = [sv, 1]
+        nested = [[sv]]
+        for k, mk in (("map", lambda c: {"map": [c, {"var": ""}]}), ("filter", lambda c: {"filter": [c, True]}),
+                      ("reduce", lambda c: {"reduce": [c, {"var": "current"}, 0]}), ("merge", lambda c: {"merge": [c]}), ("merge2", lambda c: {"merge": [c, c]}),
+                      ("in", lambda c: {"in": [7, c]}), ("cat", lambda c: {"cat": [c]}), ("==", lambda c: {"==": [c, "x"]}), ("!!", lambda c: {"!!": [c]}),
+                      ("if", lambda c: {"if": [c, c, 0]}), ("and", lambda c: {"and": [c, c]}), ("or", lambda c: {"or": [[], c]}), ("var-default", lambda c: {"var": ["zz", c]}),
+                      ("missing", lambda c: {"missing": [c]}), ("max", lambda c: {"max": [c]}), ("log", lambda c: {"log": [c]}), ("substr", lambda c: {"substr": ["abc", 0, c]}),
+                      ("all-pred", lambda c: {"all": [[1], c]}), ("some-nested", lambda c: {"some": [[c], True]}), ("none-inner", lambda c: {"none": [[[sv]], {"var": ""}]})):
+            for c in (lit, nested, {"a": 1, "b": sv}, [{"k": sv, "k2": 1}]):
+                out.append(("inert", k, app(mk(c), d0)))
     # dispatch: every operator name with a simple valid call is an operation (differs from the literal)
     for k in ALLOPS:
         n = 2 if DOC[k](2) else (3 if DOC[k](3) else 1)
@@ -138,6 +153,13 @@ def s_truthy(g, tier):
                     app({"if": [False, 1, e, "T2", "F2"]}, d), app({"!": [{"!": [e]}]}, d)]
             if not litarr:
                 out += [app({"!!": e}, d), app({"!": e}, d)]
+    # values reached through paths that index arrays from the end or strings by character
+    pd = {"items": [0, "", [], "last"], "zeros": [1, 0], "name": "0x", "empty": "", "nest": {"l": [[0], []]}}
+    for pth, dd in [("items.-1", pd), ("items.-2", pd), ("items.0", pd), ("zeros.-1", pd), ("zeros.-2", pd), ("name.0", pd), ("name.-1", pd), ("name.5", pd), ("empty.0", pd),
+                    ("nest.l.-1", pd), ("nest.l.0", pd), ("-1", [0, 1]), ("-2", [0, 1]), ("0", "x"), ("-1", "0"), (-1, [0, 5]), (-1, [5, 0]), (0, "a")]:
+        e = {"var": pth}
+        out += [app({"!!": [e]}, dd), app({"!": [e]}, dd), app({"if": [e, "T", "F"]}, dd), app({"?:": [e, "T", "F"]}, dd), app({"and": [e, "next"]}, dd), app({"or": [e, "next"]}, dd),
+                app({"if": [False, 1, e, "T2", "F2"]}, dd), app({"filter": [[1], e]}, dd), app({"all": [[1], e]}, dd), app({"some": [[1], e]}, dd), app({"none": [[1], e]}, dd)]
     # operator results in deciding position
     for e in [{"+": [0, 0]}, {"-": [1, 1]}, {"*": [-1, 0]}, {"cat": []}, {"cat": [""]}, {"merge": []}, {"merge": [[]]}, {"substr": ["abc", 3]},
               {"filter": [[0], {"var": ""}]}, {"map": [[], 1]}, {"missing": []}, {"missing": ["zz"]}, {"%": [4, 2]}, {"/": [0, 5]},
@@ -286,8 +308,9 @@ def s_missing(g, tier):
     """C12"""
     out = []
     datas = [{"a": 1, "b": None, "c": "", "d": [], "e": {"f": 0, "g": None}, "l": [1, None], "0": "z", "s": "str"}, [1, None, [2]], "text", None, {}, 5,
-             {"a.b": 1, "a": {"b": 2}}]
-    keylists = [[], ["a"], ["zz"], ["a", "zz"], ["zz", "a", "yy"], ["a", "a", "b"], ["zz", "zz", "a"], ["zz", "yy", "zz", "yy"], ["b", "c", "d"], ["e.f", "e.g", "e.h"],
+             {"a.b": 1, "a": {"b": 2}}, {"name": "Zoë", "s": "héllo😀", "l": ["日本語"]}, "héllo", "日本"]
+    keylists = [["name.2", "name.3", "name.-3", "name.-4"], ["s.5", "s.6", "s.9", "s.-6", "s.-7", "s.-10"], ["l.0.2", "l.0.3", "l.0.8", "l.0.-3", "l.0.-4", "l.0.-9"],
+                [4, 5, 6, -5, -6, -7], [1, 2, 3, 5, 6, -2, -3, -6], [], ["a"], ["zz"], ["a", "zz"], ["zz", "a", "yy"], ["a", "a", "b"], ["zz", "zz", "a"], ["zz", "yy", "zz", "yy"], ["b", "c", "d"], ["e.f", "e.g", "e.h"],
                 ["l.0", "l.1", "l.2", "l.-1"], [0, 1, 2, 3, -1], [None, "a", None, "zz"], ["", "a"], [None], ["a.b", "a\\.b"], ["s.0", "s.9"], [0, "0", 0],
                 ["zz", 1.5], [True], [["a"]], [{}], ["a", {"x": 1}], [I64MIN, I64MAX, U64MAX], [2 ** 63], ["e", "e.f", "e.zz"]]
     for d in datas:
